@@ -186,6 +186,9 @@ type shapeStore struct {
 }
 
 func (s *shapeStore) Set(key string, value interface{}, ttl time.Duration) error {
+	if !strings.HasPrefix(key, "tunnox:conn_state:") && !strings.HasPrefix(key, "tunnox:client_conn:") {
+		return s.Storage.Set(key, value, ttl) // only the connstate decoder has alternative shapes
+	}
 	if str, ok := value.(string); ok {
 		if s.asBytes {
 			return s.Storage.Set(key, []byte(str), ttl)
@@ -238,20 +241,6 @@ func (f *fakeRW) Read(p []byte) (int, error)  { return 0, io.EOF }
 func (f *fakeRW) Write(p []byte) (int, error) { return len(p), nil }
 func (f *fakeRW) GetConnectionID() string     { return f.id }
 
-// auth accepts a handshake whose token is "ok" and identifies the connection as req.ClientID.
-type auth struct{}
-
-func (auth) HandleHandshake(c session.ControlConnectionInterface, req *packet.HandshakeRequest) (*packet.HandshakeResponse, error) {
-	if req.Token != "ok" {
-		return nil, errors.New("verif: refused")
-	}
-	c.SetClientID(req.ClientID)
-	c.SetAuthenticated(true)
-	return &packet.HandshakeResponse{Success: true, ClientID: req.ClientID}, nil
-}
-
-func (auth) GetClientConfig(c session.ControlConnectionInterface) (string, error) { return "", nil }
-
 // ------------------------------------------------------------------ shared miniredis
 
 var (
@@ -279,11 +268,12 @@ func redisStore(i int) storage.Storage {
 // ------------------------------------------------------------------ executor
 
 type nodeEnv struct {
-	down bool // the session manager was shut down: its routing decision is not observed any more
-	id   string
-	sm   *session.SessionManager
-	cs   *connstate.Store
-	rec  *recorder
+	down  bool // the session manager was shut down: its routing decision is not observed any more
+	id    string
+	cloud *cloudNode
+	sm    *session.SessionManager
+	cs    *connstate.Store
+	rec   *recorder
 }
 
 func nodeName(j int) string { return "n" + strconv.Itoa(j) }
@@ -418,7 +408,9 @@ func runCase(k *kase) (res runResult) {
 		n := &nodeEnv{id: nodeName(j), rec: &recorder{Storage: idStore}}
 		n.sm = session.NewSessionManager(idgen.NewIDManager(idStore, ctx), ctx)
 		n.sm.SetNodeID(n.id)
-		n.sm.SetAuthHandler(auth{})
+		n.cloud = newCloudNode(ctx, stores[j])
+		n.sm.SetAuthHandler(cloudAuth{cloud: n.cloud, nodeID: n.id})
+		n.sm.SetCloudControl(n.cloud)
 		n.cs = session.NewConnectionStateStore(stores[j], n.id, time.Duration(k.ttl)*time.Millisecond)
 		n.sm.SetConnectionStateStore(n.cs)
 		n.sm.SetCrossNodePool(session.NewCrossNodePool(ctx, n.rec, n.id, session.DefaultCrossNodePoolConfig()))
@@ -524,7 +516,7 @@ func runCase(k *kase) (res runResult) {
 			var ans []string
 			for _, n := range nodes {
 				node, cid, err := n.cs.FindClientNode(ctx, x)
-				ans = append(ans, lookTok(node, cid, err)+"/"+routeTok(n, x))
+				ans = append(ans, lookTok(node, cid, err)+"/"+routeTok(n, x)+"/"+n.cloud.stateTok(x))
 			}
 			per = append(per, strconv.FormatInt(x, 10)+"="+strings.Join(ans, ","))
 		}
@@ -571,6 +563,12 @@ func runCase(k *kase) (res runResult) {
 		}
 		for _, ch := range k.sched {
 			g.step(int(ch - '0'))
+		}
+		// the schedule is used up: the rest runs one thread after the other (deterministic, and the trace stays exact)
+		for t := 0; t < 2; t++ {
+			for !g.isDone(t) {
+				g.step(t)
+			}
 		}
 		g.release()
 		wg.Wait()
